@@ -1,5 +1,10 @@
 use crate::report::Args;
 
+pub mod c04;
+pub mod c13;
+pub mod c18;
+pub mod c19;
+pub mod c20;
 pub mod sched;
 
 /// Dispatches a subcommand. Exit code 0 = shard ran to completion (verdicts are in the report).
@@ -8,6 +13,11 @@ pub fn run(args: &Args) -> i32 {
         "c01" => sched::run(args, "c01", "C01", 2400, 60_000, 6),
         "c02" => sched::run(args, "c02", "C02", 2400, 60_000, 8),
         "c03" => sched::run(args, "c03", "C03", 2400, 60_000, 8),
+        "c04" => c04::run(args),
+        "c13" => c13::run(args),
+        "c18" => c18::run(args),
+        "c19" => c19::run(args),
+        "c20" => c20::run(args),
         "c07" => sched::run(args, "c07", "C07", 1600, 40_000, 5),
         "c10" => sched::run(args, "c10", "C10", 6000, 200_000, 0),
         "c12" => sched::run(args, "c12", "C12", 1600, 40_000, 4),
